@@ -1,6 +1,7 @@
 import ButlerModel.Model.DataId
 import ButlerModel.Props.C12
 import ButlerModel.Model.Front
+import ButlerModel.Gen.StandardizePy
 /-! # C13 — data IDs mean one thing: standardisation and expansion are consistent -/
 namespace C13
 open Dim DataId
@@ -487,3 +488,104 @@ example : rewrite demoRecs (some 10) [(1, 0)] = some 10 ∧ rewrite demoRecs (so
     ∧ rewrite demoRecs none [(1, 0)] = some 10 ∧ rewrite demoRecs none [(1, 1)] = none ∧ rewrite demoRecs none [(1, 1), (2, 6)] = some 12 := by decide
 
 end C13.Front
+
+/-! ### `DataCoordinate.standardize` (plain mapping) as translated from the source on every run (`Gen/StandardizePy.lean`, `translate/gen_standardize.py`) -/
+namespace C13.Translated
+open DataId Dim
+
+theorem getv_single (k v x : Nat) : getv [(k, v)] x = if k = x then some v else none := by
+  simp [getv, List.find?]
+  split <;> simp_all
+
+theorem getv_setdefault (m : Assoc) (k v x : Nat) : getv (setdefault m k v) x = (getv m x).or (getv [(k, v)] x) := by
+  unfold setdefault
+  by_cases h : (getv m k).isSome = true
+  · simp only [h, if_true, getv_single]
+    by_cases hkx : k = x
+    · subst hkx
+      obtain ⟨w, hw⟩ := Option.isSome_iff_exists.mp h
+      simp [hw]
+    · simp [hkx]
+  · simp only [h, Bool.false_eq_true, if_false]
+    exact C13.get_append m [(k, v)] x
+
+theorem getv_fold_setdefault (d : Assoc) : ∀ (m : Assoc) (x : Nat),
+    getv (d.foldl (fun m (p : Nat × Nat) => setdefault m p.1 p.2) m) x = (getv m x).or (getv d x) := by
+  induction d with
+  | nil => intro m x; simp [getv]
+  | cons e r ih =>
+    intro m x
+    obtain ⟨k, v⟩ := e
+    simp only [List.foldl_cons]
+    rw [ih, getv_setdefault]
+    have : getv ((k, v) :: r) x = (getv [(k, v)] x).or (getv r x) := C13.get_append [(k, v)] r x
+    rw [this, Option.or_assoc]
+
+/-- what the model's error becomes in the translation's `Except String` -/
+def viewOf (r : Except Err DataId.DataId) : Except String DataId.DataId :=
+  match r with
+  | .ok d => .ok d
+  | .error _ => .error "DimensionNameError"
+
+/-- the part of the translation after the group is known, for a merged mapping `m0` -/
+theorem tail_eq (U : Universe) (g : List Nat) (m0 df : Assoc) (hg : g.isEmpty = false) :
+    (let new_mapping := (df).foldl (fun new_mapping (x : Nat × Nat) => setdefault new_mapping x.1 x.2) m0
+     (if (g.all (fun d => (getv new_mapping d).isSome)) then
+        (Except.ok (⟨g, (required U g ++ implied U g).map (fun d => (d, (getv new_mapping d).getD 0)), true⟩ : DataId.DataId))
+      else
+        (if (!(required U g).all (fun d => (getv new_mapping d).isSome)) then (Except.error "DimensionNameError") else
+          (Except.ok (⟨g, (required U g).map (fun d => (d, (getv new_mapping d).getD 0)), false⟩ : DataId.DataId))) : Except String DataId.DataId)) =
+    viewOf (if g.all (fun d => (getv (withDefaults m0 df) d).isSome) then
+        .ok ⟨g, (required U g ++ implied U g).map (fun d => (d, (getv (withDefaults m0 df) d).getD 0)), true⟩
+      else if (required U g).all (fun d => (getv (withDefaults m0 df) d).isSome) then
+        .ok ⟨g, (required U g).map (fun d => (d, (getv (withDefaults m0 df) d).getD 0)), false⟩
+      else .error .dimensionName) := by
+  have hget : ∀ x, getv ((df).foldl (fun new_mapping (x : Nat × Nat) => setdefault new_mapping x.1 x.2) m0) x = getv (withDefaults m0 df) x := by
+    intro x; rw [getv_fold_setdefault]; exact (C13.get_append m0 df x).symm
+  simp only [hget]
+  by_cases h1 : g.all (fun d => (getv (withDefaults m0 df) d).isSome) = true
+  · simp [h1, viewOf]
+  · by_cases h2 : (required U g).all (fun d => (getv (withDefaults m0 df) d).isSome) = true
+    · simp [h1, h2, viewOf]
+    · simp [h1, h2, viewOf]
+
+theorem full_eq (U : Universe) (g : List Nat) (m0 df : Assoc) :
+    ((if g.isEmpty = true then (Except.ok (⟨[], [], true⟩ : DataId.DataId)) else
+     (let new_mapping := (df).foldl (fun new_mapping (x : Nat × Nat) => setdefault new_mapping x.1 x.2) m0
+     (if (g.all (fun d => (getv new_mapping d).isSome)) then
+        (Except.ok (⟨g, (required U g ++ implied U g).map (fun d => (d, (getv new_mapping d).getD 0)), true⟩ : DataId.DataId))
+      else
+        (if (!(required U g).all (fun d => (getv new_mapping d).isSome)) then (Except.error "DimensionNameError") else
+          (Except.ok (⟨g, (required U g).map (fun d => (d, (getv new_mapping d).getD 0)), false⟩ : DataId.DataId))))) : Except String DataId.DataId)) =
+    viewOf (if g.isEmpty = true then .ok ⟨[], [], true⟩ else
+      if g.all (fun d => (getv (withDefaults m0 df) d).isSome) then
+        .ok ⟨g, (required U g ++ implied U g).map (fun d => (d, (getv (withDefaults m0 df) d).getD 0)), true⟩
+      else if (required U g).all (fun d => (getv (withDefaults m0 df) d).isSome) then
+        .ok ⟨g, (required U g).map (fun d => (d, (getv (withDefaults m0 df) d).getD 0)), false⟩
+      else .error .dimensionName) := by
+  by_cases hg : g.isEmpty = true
+  · rw [if_pos hg, if_pos hg]; rfl
+  · have hg' : g.isEmpty = false := by simpa using hg
+    rw [if_neg hg, if_neg hg]
+    exact tail_eq U g m0 df hg'
+
+/-- **`DataCoordinate.standardize` (plain mapping) as translated from the source on every run is the model's `standardize`** — the
+function `standardize_lookup_only`, `standardize_extra_keys_irrelevant` and `defaults_only_fill` are about. -/
+theorem translated_standardize (U : Universe) (m kw : Assoc) (dims : Option (List Nat)) (df : Assoc) :
+    Gen.StandardizePy.standardizePy U m kw dims.isNone (dims.getD []) df = viewOf (standardize U m kw dims df) := by
+  have hfold : ∀ (m0 : Assoc), (df).foldl (fun new_mapping (x : Nat × Nat) =>
+        match x with
+        | (k, v) => setdefault new_mapping k v) m0 =
+      (df).foldl (fun new_mapping (x : Nat × Nat) => setdefault new_mapping x.1 x.2) m0 := by
+    intro m0; congr 1
+  cases dims with
+  | none =>
+    simp only [Gen.StandardizePy.standardizePy, Option.isNone_none, Bool.not_true, Bool.false_eq_true, if_false, if_true, standardize,
+      DataId.update, List.append_nil, hfold]
+    exact full_eq U _ (kw ++ m) df
+  | some d =>
+    simp only [Gen.StandardizePy.standardizePy, Option.isNone_some, Bool.not_false, if_true, Bool.false_eq_true, if_false, standardize,
+      DataId.update, List.append_nil, Option.getD_some, hfold]
+    exact full_eq U _ (kw ++ m) df
+
+end C13.Translated
